@@ -199,7 +199,7 @@ void h_timerfd_set(void)
 	r = iv_fd_epoll_timerfd_set_poll_timeout(&v_state, &abs);
 
 	if (!verif_in.timer_fd_exists && verif_in.tfd_errno == ENOSYS) {
-		__CPROVER_assert(r == 0 && method == &iv_fd_poll_method_epoll, "[C15] timer descriptors missing: the thread falls back to the plain epoll method in mid-run and the caller passes the deadline to the wait itself");
+		__CPROVER_assert(r == 0 && method == &iv_fd_poll_method_epoll, "[C15,C04,C05] timer descriptors missing: the thread falls back to the plain epoll method in mid-run and the caller passes the deadline to the wait itself");
 		__CPROVER_assert(!g_tfd_armed && v_state.u.epoll.timer_fd == -1 && g_settime_calls == 0, "[C15] nothing is armed");
 		__CPROVER_assert(iv_list_empty(&v_state.u.epoll.notify) && k_ctl_calls == 0, "[C15] registered interests and pending updates are untouched by the fallback");
 	} else {
